@@ -4,6 +4,7 @@ what the test `row & lsb` decides, and how `bvectorToInt` (big-endian packing) l
 digits of a row out as bits.  Core Lean only.
 -/
 import PanqecVerif.Model.Bits
+import PanqecVerif.Proofs.Bits
 
 namespace Panqec
 
@@ -116,40 +117,6 @@ theorem lt_two_pow_of_isLowestBit {r t w : Nat} (h : IsLowestBit r t) (hr : r < 
 
 /-! ### `bvectorToInt` (big-endian) -/
 
-theorem foldl_bvec (v : List Nat) : ∀ acc : Nat,
-    v.foldl (fun acc b => 2 * acc + b) acc = acc * 2 ^ v.length + bvectorToInt v := by
-  induction v with
-  | nil => intro acc; simp [bvectorToInt]
-  | cons b bs ih =>
-    intro acc
-    simp only [bvectorToInt, List.foldl_cons, List.length_cons]
-    rw [ih (2 * acc + b), ih (2 * 0 + b), Nat.pow_succ]
-    simp only [Nat.mul_zero, Nat.zero_add, Nat.add_mul]
-    rw [Nat.mul_comm (2 ^ bs.length) 2, Nat.add_assoc, Nat.mul_left_comm acc 2, Nat.mul_assoc]
-
-theorem bvectorToInt_nil : bvectorToInt [] = 0 := rfl
-
-theorem bvectorToInt_append_singleton (v : List Nat) (b : Nat) :
-    bvectorToInt (v ++ [b]) = 2 * bvectorToInt v + b := by
-  simp [bvectorToInt, List.foldl_append]
-
-theorem bvectorToInt_cons (b : Nat) (v : List Nat) :
-    bvectorToInt (b :: v) = b * 2 ^ v.length + bvectorToInt v := by
-  have := foldl_bvec v (2 * 0 + b)
-  simpa [bvectorToInt] using this
-
-theorem bvectorToInt_lt : ∀ (v : List Nat), (∀ x ∈ v, x < 2) → bvectorToInt v < 2 ^ v.length := by
-  intro v
-  induction v with
-  | nil => intro _; simp [bvectorToInt]
-  | cons b u ih =>
-    intro h
-    have hb : b < 2 := h b (by simp)
-    have := ih (fun x hx => h x (by simp [hx]))
-    rw [bvectorToInt_cons, List.length_cons, Nat.pow_succ]
-    have : b * 2 ^ u.length ≤ 1 * 2 ^ u.length := Nat.mul_le_mul_right _ (by omega)
-    omega
-
 /-- bit `i` of the big-endian packing of a 0/1 row is its digit `len - 1 - i`
     (digit `i` of the reversed row). -/
 theorem testBit_bvectorToInt_reverse : ∀ (u : List Nat), (∀ x ∈ u, x < 2) → ∀ i,
@@ -161,7 +128,7 @@ theorem testBit_bvectorToInt_reverse : ∀ (u : List Nat), (∀ x ∈ u, x < 2) 
     intro h i
     have hb : b < 2 := h b (by simp)
     have ih' := ih (fun x hx => h x (by simp [hx]))
-    rw [List.reverse_cons, bvectorToInt_append_singleton]
+    rw [List.reverse_cons, bvectorToInt_append]
     cases i with
     | zero =>
       simp only [Nat.testBit_zero, List.getD_cons_zero]
